@@ -45,6 +45,7 @@ pub fn props(name: &str) -> &'static str {
         "eq_mismatch" => "C17",
         "panic_state" => "C18",
         "niche" => "C20",
+        "float_roundtrip" => "C15",
         "process_abort" => "C01,C03",
         _ => "C01",
     }
@@ -150,6 +151,29 @@ pub fn reconcile(
 
     // -- constructor-like: the appended slot ---------------------------------------------------
     if op.is_ctor() {
+        // floats: the property is the round trip (C15), not equality with `to_string()`
+        if let Op::FromInt { v } = op {
+            let float = match v {
+                crate::case::Int::F32(b) => Some((b.0 as u64, 32)),
+                crate::case::Int::F64(b) => Some((b.0, 64)),
+                _ => None,
+            };
+            if let (Some((bits, w)), true) = (float, outcome.is_ok()) {
+                let txt = pool[target].as_ref().map(|s| s.as_str().to_string()).unwrap_or_default();
+                let ok = if w == 32 {
+                    let x = f32::from_bits(bits as u32);
+                    match txt.parse::<f32>() { Ok(y) => (x.is_nan() && y.is_nan()) || x.to_bits() == y.to_bits(), Err(_) => false }
+                } else {
+                    let x = f64::from_bits(bits);
+                    match txt.parse::<f64>() { Ok(y) => (x.is_nan() && y.is_nan()) || x.to_bits() == y.to_bits(), Err(_) => false }
+                };
+                if !ok {
+                    out.push(mf("float_roundtrip", format!("f{w} bits {bits}: text `{txt}` does not parse back to the same value")));
+                }
+                model.push(Some(txt));
+                return out;
+            }
+        }
         model.push(if outcome.is_ok() { state } else { None });
         return out;
     }
